@@ -148,6 +148,25 @@ pub fn run(tier: &str, only: Option<&Value>) -> i32 {
                 rep.violation(Violation { key, features: vec![format!("position:{pos}")], input: input.clone(), ps, detail, locator: json!({"space": "elsewhere", "index": k, "ps": ps}) });
             }
         }
+        // by-value cycles through vftable owners
+        if only_i.is_none() {
+            for (k, input) in cycles_with_vftables().iter().enumerate() {
+                let v = pipe::run(input, ps);
+                rep.states += 1;
+                rep.traces += 1;
+                rep.evaluations += 1;
+                rep.transitions += 1;
+                rep.distinct_str(&format!("vcycle|{k}|{}", v.class()));
+                let viol = match &v {
+                    pipe::Verdict::Ok(_) => Some(("by_value_cycle_accepted".to_string(), "a by-value cycle through vftable owners was accepted".to_string())),
+                    pipe::Verdict::Panic(p) => Some(("panic".to_string(), p.clone())),
+                    _ => None,
+                };
+                if let Some((key, detail)) = viol {
+                    rep.violation(Violation { key, features: vec!["family:value_cycle_with_vftables".into()], input: input.clone(), ps, detail, locator: json!({"space": "vcycles", "index": k, "ps": ps}) });
+                }
+            }
+        }
         // E2 on the small graphs: same verdict under every schedule
         if only_i.is_none() || matches!(&only_i, Some((s, _, _)) if s == "sched") {
             let small = graph_inputs(tier, true);
